@@ -202,6 +202,10 @@ pub fn templated_workspace() -> Workspace {
                 WsFile { rel: "src/client_a.gleam".into(), text: client.into() },
                 WsFile { rel: "src/client_b.gleam".into(), text: client.into() },
                 WsFile { rel: "src/deep/client_c.gleam".into(), text: client.into() },
+                // files whose very last token is a reference (no trailing newline)
+                WsFile { rel: "src/tail_type.gleam".into(), text: "import lib.{type Shape}\n\npub type Figure = Shape".into() },
+                WsFile { rel: "src/tail_const.gleam".into(), text: "import lib as l\n\npub const cap = l.unit".into() },
+                WsFile { rel: "src/tail_fn.gleam".into(), text: "import lib.{area}\n\npub const measure = area".into() },
             ],
             deps: vec![],
             is_local: true,
@@ -383,6 +387,8 @@ import dep.{type Ext, ext_fn, ExtCtor, ext_fn as ef}
 import other/mod as om
 import loc
 import loc.{loc_fn as lf, loc_const as lc, LocCtor as Lc, type LocTy as Lt, loc_two}
+import x/loc.{loc_fn as xlf} as xl
+import local/dep.{dep_local} as ld
 
 pub type Ty {
   Ctor(field: Int, second: String)
@@ -411,6 +417,8 @@ pub fn func(param: Int, label inner: Int) {
   let u3 = Lc
   let u4: Lt = u3
   let u5 = loc_two(1)
+  let u6 = xlf(1)
+  let u7 = dep_local(1)
   func(local, label: t.field)
 }
 ";
@@ -483,6 +491,10 @@ fn probes() -> Vec<Probe> {
         p("module-alias-in-import", "as om", 0, 3, Lower, false, true),
         p("module-name-in-import", "import loc\n", 0, 7, Lower, false, true),
         p("local-fn-import-item", "loc_two}", 0, 0, Lower, true, true),
+        // aliased imports whose last path segment is also the accessor of ANOTHER import
+        p("dep-item-in-aliased-import-clashing-segment", "{loc_fn as xlf}", 0, 1, Lower, true, false),
+        p("local-item-in-aliased-import-clashing-segment", "{dep_local}", 0, 1, Lower, true, true),
+        p("local-item-use-clashing-segment", "= dep_local(1)", 0, 2, Lower, true, true),
         p("local-fn-unqualified-use", "loc_two(1)", 0, 0, Lower, true, true),
     ]
 }
@@ -490,8 +502,8 @@ fn probes() -> Vec<Probe> {
 pub fn c08_workspace() -> (Workspace, usize) {
     let ws = Workspace {
         packages: vec![
-            WsPackage { name: "app".into(), files: vec![WsFile { rel: "src/main.gleam".into(), text: C08_MAIN.into() }, WsFile { rel: "src/other/mod.gleam".into(), text: "pub fn mod_fn(x) { x }\n".into() }], deps: vec![1, 2], is_local: true },
-            WsPackage { name: "dep".into(), files: vec![WsFile { rel: "src/dep.gleam".into(), text: "pub type Ext {\n  ExtCtor\n}\n\npub fn ext_fn(x) {\n  x\n}\n\npub const ext_const = 1\n".into() }], deps: vec![], is_local: false },
+            WsPackage { name: "app".into(), files: vec![WsFile { rel: "src/main.gleam".into(), text: C08_MAIN.into() }, WsFile { rel: "src/other/mod.gleam".into(), text: "pub fn mod_fn(x) { x }\n".into() }, WsFile { rel: "src/local/dep.gleam".into(), text: "pub fn dep_local(x) {\n  x\n}\n".into() }], deps: vec![1, 2], is_local: true },
+            WsPackage { name: "dep".into(), files: vec![WsFile { rel: "src/dep.gleam".into(), text: "pub type Ext {\n  ExtCtor\n}\n\npub fn ext_fn(x) {\n  x\n}\n\npub const ext_const = 1\n".into() }, WsFile { rel: "src/x/loc.gleam".into(), text: "pub fn loc_fn(x) {\n  x\n}\n".into() }], deps: vec![], is_local: false },
             WsPackage { name: "loc".into(), files: vec![WsFile { rel: "src/loc.gleam".into(), text: "pub fn loc_fn(x) {\n  x\n}\n\npub fn loc_two(x) {\n  x\n}\n\npub const loc_const = 1\n\npub type LocTy {\n  LocCtor\n}\n".into() }], deps: vec![], is_local: true },
         ],
     };
